@@ -84,6 +84,10 @@ type docViolation struct {
 	Text     string `json:"text,omitempty"`
 	Seed     int64  `json:"seed"`
 	Replay   string `json:"replay,omitempty"`
+	Tree     *jsonx.CTree `json:"tree,omitempty"`
+	How      int    `json:"how"`
+	Rec      *errRec `json:"rec,omitempty"`
+	Index    int    `json:"index"`
 }
 
 type docStats struct {
@@ -453,14 +457,15 @@ func cmdSer(args []string) int {
 	}
 	st := newDocStats()
 	full := *check == "format"
-	report := func(input, text string, err error, seedUsed int64) {
+	reportT := func(ct *jsonx.CTree, how int, input, text string, err error, seedUsed int64) {
 		msg := err.Error()
 		sig := msg
 		if len(sig) > 120 {
 			sig = sig[:120]
 		}
-		st.fail(&docViolation{Property: *prop, Message: msg, Sig: *check + ": " + sig, Check: *check, Input: input, Text: text, Seed: seedUsed})
+		st.fail(&docViolation{Property: *prop, Message: msg, Sig: *check + ": " + sig, Check: *check, Input: input, Text: text, Seed: seedUsed, Tree: ct, How: how})
 	}
+	report := func(input, text string, err error, seedUsed int64) { reportT(nil, 0, input, text, err, seedUsed) }
 	// phase 1: TLC documents x picks
 	parallel(len(docs), *workers, func(i int) {
 		if st.nviol() > 0 {
@@ -487,7 +492,7 @@ func cmdSer(args []string) int {
 				st.sample(ct.String() + "  =>  " + text)
 			}
 			if err != nil {
-				report(ct.String(), text, err, *seed)
+				reportT(ct, how, ct.String(), text, err, *seed)
 				return
 			}
 		}
@@ -515,7 +520,7 @@ func cmdSer(args []string) int {
 				text, err := runSerCheck(*check, ct, (i+j)%3, nil, false)
 				atomic.AddInt64(&st.evals, 1)
 				if err != nil {
-					report(fmt.Sprintf("code point U+%04X: %s", runes[i], ct.String()), text, err, *seed)
+					reportT(ct, (i+j)%3, fmt.Sprintf("code point U+%04X: %s", runes[i], ct.String()), text, err, *seed)
 					return
 				}
 			}
@@ -559,7 +564,7 @@ func cmdSer(args []string) int {
 			atomic.AddInt64(&st.evals, 50)
 			st.seen(ct.String())
 			if err != nil {
-				report("random numbers: "+ct.String(), text, err, *seed)
+				reportT(ct, i%3, "random numbers: "+ct.String(), text, err, *seed)
 			}
 		})
 	}
@@ -575,7 +580,7 @@ func cmdSer(args []string) int {
 			atomic.AddInt64(&st.evals, 1)
 			st.seen(ct.String())
 			if err != nil {
-				report("random tree: "+ct.String(), text, err, *seed)
+				reportT(ct, i%3, "random tree: "+ct.String(), text, err, *seed)
 			}
 		})
 	}
@@ -615,6 +620,64 @@ func finishDocs(prop string, st *docStats, out, replayDir string, extra map[stri
 	return 0
 }
 
+// cmdDocReplay re-runs one recorded violation of the JSON family on the current tree.
+func cmdDocReplay(args []string) int {
+	fs := flag.NewFlagSet("docreplay", flag.ExitOnError)
+	file := fs.String("file", "", "replay file")
+	fs.Parse(args)
+	b, err := os.ReadFile(*file)
+	if err != nil {
+		fmt.Fprintln(os.Stderr, err)
+		return 2
+	}
+	var v docViolation
+	if err := json.Unmarshal(b, &v); err != nil {
+		fmt.Fprintln(os.Stderr, err)
+		return 2
+	}
+	var rerr error
+	switch v.Check {
+	case "roundtrip", "stdjson", "format":
+		if v.Tree == nil {
+			fmt.Fprintln(os.Stderr, "replay file has no tree")
+			return 2
+		}
+		_, rerr = runSerCheck(v.Check, v.Tree, v.How, nil, true)
+	case "parse":
+		if v.Tree == nil {
+			fmt.Fprintln(os.Stderr, "replay file has no expected tree")
+			return 2
+		}
+		rerr = checkParseValid(&concDoc{text: v.Text, expected: v.Tree, root: v.Tree.Kind, rootOff: strings.IndexAny(v.Text, "[{")})
+	case "total", "termination":
+		rerr = checkTotal(v.Text)
+	case "cut":
+		if v.Tree != nil {
+			rerr = cutDocCheck(v.Tree, v.How, nil)
+		} else {
+			rerr = checkTotal(v.Text)
+		}
+	case "errline":
+		if v.Rec == nil {
+			fmt.Fprintln(os.Stderr, "replay file has no record")
+			return 2
+		}
+		tmp, _ := os.MkdirTemp("", "vh-replay-")
+		defer os.RemoveAll(tmp)
+		_, rerr, _ = errlineOne(v.Rec, v.Index, v.Seed, tmp)
+	default:
+		fmt.Fprintln(os.Stderr, "unknown check", v.Check)
+		return 2
+	}
+	if rerr != nil {
+		fmt.Printf("VIOLATION property=%s replay=%s\n  %s\n", v.Property, *file, rerr)
+		return 1
+	}
+	fmt.Println("replay: the recorded case passes on this tree (original message: " + v.Message + ")")
+	return 0
+}
+
 func init() {
 	extraCmds["ser"] = cmdSer
+	extraCmds["docreplay"] = cmdDocReplay
 }
